@@ -792,8 +792,9 @@ func (r *c32Run) deliverProof(h int64, sb *c32Sub, feeCollector string, validSee
 	key := claimKey(node, hdr)
 	lc := r.live[key]
 	// a reward is weighted by the servicer's stake bin: below one bin (or validator gone) nothing is minted
+	// (read live: a replay-attack burn earlier in this very block may have pushed the stake under the bin)
 	weightOne := false
-	if v, ok := r.snaps[r.n.Height].vals[node.String()]; ok && v.stake >= chain.StakeUnit {
+	if v, ok := r.n.App.VerifNodesKeeper().GetValidator(r.n.Ctx(), node); ok && v.StakedTokens.GTE(sdk.NewInt(chain.StakeUnit)) {
 		weightOne = true
 	}
 	accBefore := r.n.Accounts()
